@@ -72,6 +72,8 @@ pub struct Cov {
     pub max_key_file: u64,
     pub max_val_file: u64,
     pub panics: u64,
+    /// branches of the Lean model taken (reported by the driver)
+    pub model_branches: BTreeMap<String, u64>,
 }
 impl Cov {
     pub fn merge(&mut self, o: &Cov) {
@@ -91,6 +93,9 @@ impl Cov {
         self.max_key_file = self.max_key_file.max(o.max_key_file);
         self.max_val_file = self.max_val_file.max(o.max_val_file);
         self.panics += o.panics;
+        for (k, v) in &o.model_branches {
+            *self.model_branches.entry(k.clone()).or_default() += v;
+        }
     }
 }
 
@@ -687,5 +692,15 @@ pub fn run_seq_with_state(seq: &Seq, dir: &Path, driver: &mut Option<Driver>, op
     }
     // drop handles quietly (after a panic the RefCells may be poisoned; never unwind from drop)
     imp.finish();
+    if let (true, Some(d)) = (opts.model, driver.as_mut()) {
+        for kv in d.ask("cov").split(',') {
+            let mut it = kv.split('=');
+            if let (Some(k), Some(v)) = (it.next(), it.next()) {
+                if let Ok(v) = v.parse::<u64>() {
+                    cov.model_branches.insert(k.to_string(), v);
+                }
+            }
+        }
+    }
     Outcome { diffs, steps, cov, transcript }
 }
